@@ -435,6 +435,48 @@ fn main() {
             items.push(mk(["sopes", "sop"][k % 2], n, &fs2, t));
         }
     }
+    // algebraically related outputs: [b1 | b2, b1, b2], [b1 & b2, b1, b2], [b1 ^ b2, b1, b2] for all pairs of
+    // symmetric functions of 3 variables (exactly-k, at-least-k, not-all-equal, parity, ...) and for random sparse
+    // pairs: one output can then be cheapest as the OR of many small cubes that the other outputs already pay for
+    {
+        let sym: Vec<u64> = (0..16u64).map(|c| sat_mask(3, |a| (c >> (a as u64).count_ones()) & 1 == 1) as u64).collect();
+        let and_gt_or: Vec<(i64, i64, i64)> = triples.iter().copied().filter(|t| t.0 > t.2).collect();
+        let mut k = 0usize;
+        let mut push_related = |items: &mut Vec<Ev>, b1: u64, b2: u64, rng: &mut Rng| {
+            for (j, f0) in [b1 | b2, b1 & b2, b1 ^ b2].into_iter().enumerate() {
+                let fs = [f0, b1, b2];
+                let total: u32 = fs.iter().map(|f| f.count_ones()).sum();
+                if fs.iter().any(|f| *f == 0) || total > 14 || (j > 0 && !thorough && k % 3 != 0) {
+                    continue;
+                }
+                k += 1;
+                let mut order = fs.to_vec();
+                if rng.bool() {
+                    order.rotate_left(1);
+                }
+                if thorough {
+                    for t in &triples {
+                        items.push(mk(["sop", "sopes"][k % 2], 3, &order, *t));
+                    }
+                } else {
+                    items.push(mk("sop", 3, &order, and_gt_or[(k + rot) % and_gt_or.len()]));
+                    items.push(mk(["sop", "sopes"][k % 2], 3, &order, triples[(k * 5 + rot) % triples.len()]));
+                }
+            }
+        };
+        for b1 in &sym {
+            for b2 in &sym {
+                if b1 < b2 {
+                    push_related(&mut items, *b1, *b2, &mut rng);
+                }
+            }
+        }
+        for _ in 0..if thorough { 600 } else { 30 } {
+            let b1 = rng.next_u64() & rng.next_u64() & 0xff;
+            let b2 = rng.next_u64() & rng.next_u64() & 0xff;
+            push_related(&mut items, b1, b2, &mut rng);
+        }
+    }
     rng.shuffle(&mut items);
     let per = 64usize;
     let shards = (items.len() + per - 1) / per;
